@@ -4,6 +4,7 @@ import (
 	"context"
 	"encoding/json"
 	"fmt"
+	"io"
 	"io/ioutil"
 	"mime"
 	"net/http"
@@ -223,7 +224,11 @@ func NewRequestFromHTTP(r *http.Request) (req *Request, code int, err error) {
 				Extensions    map[string]interface{} `json:"extensions"`
 			}
 
-			if err := json.NewDecoder(r.Body).Decode(&body); err != nil {
+			decoder := json.NewDecoder(r.Body)
+			if err := decoder.Decode(&body); err != nil {
+				return nil, http.StatusBadRequest, fmt.Errorf("malformed request body")
+			} else if _, err := decoder.Token(); err != io.EOF {
+				// the body must be a single JSON value
 				return nil, http.StatusBadRequest, fmt.Errorf("malformed request body")
 			}
 
